@@ -5,7 +5,8 @@
      explicit domain: 0 | 1 tval tval     data: list of tval
      tval := 0 num den (number) | 1 y m d (date) | 2 us (datetime, microseconds since
              1970-01-01) | 3 h mi s us (time)
-   -> 1 d0 d1 len dots ticks   (d0 d1 := 0 num den | 1 us; len rational; lists of rationals)
+   -> 1 d0 d1 len dots ticks texts   (d0 d1 := 0 num den | 1 us; len rational; lists of
+        rationals; texts: list of lists of code points, one per tick)
     | 0 kind                   (0 empty data, 1 wrong type, 2 datetime out of range)
     | -1                       (out of fuel) *)
 From Coq Require Import ZArith NArith QArith List Bool.
@@ -47,6 +48,7 @@ Definition api_axis_run (a : list Z) : list Z :=
       match axis i with
       | AOk o => 1 :: e_pval (ax_d0 o) ++ e_pval (ax_d1 o) ++ e_q (ax_len o)
                    ++ e_list e_q (ax_dots o) ++ e_list e_q (ax_ticks o)
+                   ++ e_list (e_list e_n) (ax_tick_text o)
       | ARaise k => [0; ekind_code k]
       | AFuel => [-1]
       end
